@@ -69,14 +69,36 @@ def check(ctx):
                 else:
                     k = kw(body, "string")
                     ok = k is not None and norm(k) == vecp and len(body.args) == 1
-        ctx.ob("FWD-registry", init, norm(wraps[0]) if wraps else "wrap", wraps[0] if wraps else init.node, ok,
-               f"vector bound as {'first positional argument' if bind == 'pos' else 'string='}" if ok else
-               "the proxy does not bind the vector to the module function's vector parameter", clause="proxies return the same results as the module functions")
+        from ..forms import expand as _expand
         entries = {}
+        direct_bad = []
+        n_direct = 0
         for n in body_nodes(init.node):
-            if isinstance(n, ast.Assign) and isinstance(n.targets[0], ast.Attribute) and norm(n.targets[0].value) == init.params[0] \
-                    and isinstance(n.value, ast.Call) and norm(n.value.func) == wname and n.value.args:
-                entries[n.targets[0].attr] = (n.value.args[0], n)
+            if not (isinstance(n, ast.Assign) and isinstance(n.targets[0], ast.Attribute) and norm(n.targets[0].value) == init.params[0]):
+                continue
+            v = _expand(init, n.value, n, keep=(wname, vecp))
+            if isinstance(v, ast.Call) and norm(v.func) == wname and v.args and wraps:
+                entries[n.targets[0].attr] = (v.args[0], n)
+            elif isinstance(v, ast.Call) and norm(v.func) == "functools.partial" and v.args:
+                # bound without the local wrapper: functools.partial(<function>, vector) / (<function>, string=vector)
+                n_direct += 1
+                entries[n.targets[0].attr] = (v.args[0], n)
+                if bind == "pos":
+                    good = len(v.args) == 2 and norm(v.args[1]) == vecp and not v.keywords
+                else:
+                    k = kw(v, "string")
+                    good = k is not None and norm(k) == vecp and len(v.args) == 1 and len(v.keywords) == 1
+                if not good:
+                    direct_bad.append(n)
+        if wraps or not n_direct:
+            ctx.ob("FWD-registry", init, norm(wraps[0]) if wraps else "wrap", wraps[0] if wraps else init.node, ok,
+                   f"vector bound as {'first positional argument' if bind == 'pos' else 'string='}" if ok else
+                   "the proxy does not bind the vector to the module function's vector parameter", clause="proxies return the same results as the module functions")
+        if n_direct:
+            ctx.ob("FWD-registry", init, f"{n_direct} attribute(s) bound by functools.partial directly", direct_bad[0] if direct_bad else init.node,
+                   not direct_bad, f"vector bound as {'first positional argument' if bind == 'pos' else 'string='}" if not direct_bad else
+                   f"{norm(direct_bad[0])[:80]} does not bind the vector to the module function's vector parameter",
+                   clause="proxies return the same results as the module functions")
         for attr, (target, node) in sorted(entries.items()):
             d = repo.dotted(init, target)
             ok = d == f"{mod.name}.{attr}"
